@@ -26,7 +26,7 @@ def body_digest(f):
 def all_reason_keys():
     from .rules import state, mutate, mode, stream, config
     keys = set()
-    for t in (state.RAISE_REASONS, mutate.N1_REASONS, mutate.N2_REASONS, mode.G3_REASONS, stream.WRITE_REASONS):
+    for t in (state.RAISE_REASONS, mutate.N1_REASONS, mutate.N2_REASONS, mutate.N5_REASONS, mode.G3_REASONS, stream.WRITE_REASONS):
         keys |= {k[0] for k in t}
     for k in mutate.N1_REASONS:
         tail = k[1].rsplit('@', 1)[-1]
